@@ -361,7 +361,9 @@ PROPS["C08"] = {
                   "(max_error_pick_index), so if the first and last sample have error 0 (fit_point_error_at_hit; their parameters 0 and 1 are kept by newton_fixed_at_ends_*) a candidate that is not within "
                   "the tolerance >= 0 is split at 1 <= i, i + 1 < n. body_eq / bodyState_inv: the generated body is line | bodyFinish(bodyState), the state being (parameters, the curve generated from them, "
                   "that curve's measured error and index). "
-                  "THE KERNEL IS GENERATED TOO (Props/C08Kernel, Gen/FitKernel): generated_fit_within_error - for every list of 2-D points without two equal consecutive points, every contiguous slice, tangents and "
+                  "THE KERNEL IS GENERATED TOO (Props/C08Kernel, Gen/FitKernel): generated_fit_curve_spec - THE STATEMENT OF THE PROPERTY FOR THE PUBLIC fit_curve in exact arithmetic: for every list of at least two 2-D points "
+                  "without two equal consecutive points and every max_error, fit_curve returns Some connected chain from the first to the last point (blocks of at most 200 points sharing their boundary point) and every "
+                  "input point is within max_error of one of its curves at a parameter in [0,1]; generated_fit_within_error - for every list of 2-D points without two equal consecutive points, every contiguous slice, tangents and "
                   "tolerance, EVERY POINT IS WITHIN THE (clamped) TOLERANCE OF ONE OF THE RETURNED CURVES AT A PARAMETER IN [0,1] (the first clause of the property, in exact arithmetic, nothing left as a parameter); "
                   "generated_fit_chain - the same fitter never uses up depth points.length and returns a connected chain from the first to the last point (cubicKnot_chain_inv: the chain theorem with an invariant on "
                   "the parameter list); chords_for_points_spec (one parameter per point, first 0, last 1, all in [0,1]); reparameterize_inv (kept by re-parameterisation about any curve from the first to the last "
